@@ -59,6 +59,7 @@ type host struct {
 	ridMu        sync.Mutex
 	ridHist      []string
 	identsGlobal map[string]string
+	lastRtEnv    map[string]string // environment of the most recently launched runtime (driver-side credential fetches)
 	tmpRoot      string
 	hookMu       sync.Mutex
 	hookHit      map[string]int
@@ -227,6 +228,11 @@ func (s *fakeSup) Exec(ctx context.Context, req *supvmodel.ExecRequest) error {
 		Extra: map[string]any{"cwd": cwd, "domain": req.Domain, "role": role, "launch": idx, "sel": sel, "fail": fail}})
 	if fail {
 		return &os.PathError{Op: "fork/exec", Path: req.Path, Err: syscall.EACCES}
+	}
+	if role == "runtime" {
+		s.h.ridMu.Lock()
+		s.h.lastRtEnv = envc
+		s.h.ridMu.Unlock()
 	}
 	var script Script
 	if hs, ok := s.h.sc.Healthy[role]; ok && s.h.healthy.Load() {
@@ -875,7 +881,13 @@ func (a *actor) exec(st *Step, idx int) bool {
 		hdr := map[string]string{}
 		switch {
 		case st.Token == "env" || st.Token == "":
-			hdr["Authorization"] = a.env["AWS_CONTAINER_AUTHORIZATION_TOKEN"]
+			env := a.env
+			if a.id == "driver" {
+				a.h.ridMu.Lock()
+				env = a.h.lastRtEnv
+				a.h.ridMu.Unlock()
+			}
+			hdr["Authorization"] = env["AWS_CONTAINER_AUTHORIZATION_TOKEN"]
 		case st.Token == "wrong":
 			hdr["Authorization"] = "0f0e0d0c-aaaa-4bbb-8ccc-ddddeeeeffff"
 		case st.Token == "empty":
